@@ -13,3 +13,4 @@ func init() {
 		checkResultsOnlyOnSuccess(c, "X2", "das", "pruner", "core", "blob", "header", "share/availability/light", "share/availability/full", "share/shwap/p2p/shrex", "share/shwap/p2p/shrex/peers", "share/shwap/p2p/bitswap", "share/shwap/p2p/shrex/shrex_getter", "share/shwap", "share/eds", "store", "store/file", "store/cache", "share", "api/rpc", "nodebuilder/pruner", "share/shwap/getters", "libs/authtoken", "nodebuilder/node")
 	}, "exploration", "")
 }
+
